@@ -455,7 +455,15 @@ class P:
         if k == "id":
             self.next()
             if v.endswith("!"):
-                close = {"(": ")", "[": "]", "{": "}"}[self.next()[1]]
+                opn = self.next()[1]
+                close = {"(": ")", "[": "]", "{": "}"}[opn]
+                if v[:-1] in ("assert", "debug_assert", "assert_eq", "assert_ne", "debug", "trace", "info", "warn", "error"):
+                    depth = 1                                  # preconditions / logging: the arguments are not read
+                    while depth:
+                        t = self.next()[1]
+                        if t == opn: depth += 1
+                        elif t == close: depth -= 1
+                    return ("macro", v[:-1], [])
                 return ("macro", v[:-1], self.args(close))
             path = [v]
             while self.at("::"):
